@@ -84,8 +84,41 @@ def install():
     core.monitored(EpsilonNFA, "to_regex", PROP, pre, post)
 
 
+def sparse_large_case(rng):
+    """eleven to sixteen states, sparse (a chain with a few chords, loops and epsilon moves, sometimes a trap state and an
+    accepting start state): small enough expressions, more states than small-scope generation reaches"""
+    n = rng.randint(11, 16)
+    k = 2
+    trans = [[i, gfa.EPSID if rng.random() < 0.3 else rng.randrange(k), i + 1] for i in range(n - 2)]
+    trans.append([n - 2, rng.randrange(k), 0 if rng.random() < 0.5 else rng.randrange(n - 1)])
+    for _ in range(rng.randint(0, 3)):
+        trans.append([rng.randrange(n - 1), rng.randrange(k), rng.randrange(n - 1)])
+    trap = n - 1
+    for _ in range(rng.randint(1, 3)):
+        trans.append([rng.randrange(n - 1), rng.randrange(k), trap])      # a non-final trap
+    trans.append([trap, rng.randrange(k), trap])
+    uniq = []
+    for t in trans:
+        if t not in uniq:
+            uniq.append(t)
+    finals = sorted({0} if rng.random() < 0.5 else {rng.randrange(n - 1), n - 2})
+    c = {"kind": "enfa", "n": n, "k": k, "start": [0], "final": finals, "trans": uniq, "extra": [],
+         "vc": rng.choice(["int", "str"]), "token": True, "scale": "sparse_large"}
+    if rng.random() < 0.5:
+        c["shuffle"] = rng.randrange(1 << 30)
+    return c
+
+
+SCALE_TEXTS = ["(a|b)* a b (a|b)", "(a b|b a)* (a|b) a", "a (b a)* b (a|b)* a", "((a|b) (a|b))* a", "(a* b)* a (b|a a)*"]
+
+
 def plan(tier, rng, sl, nslices, stats):
     cfg = TIERS[tier]
+    for i in range(6):
+        yield sparse_large_case(rng)
+    if sl == 0:
+        for text in SCALE_TEXTS:
+            yield {"kind": "enfa", "from_regex": text, "vc": "thompson", "trans": [], "n": 0, "k": 2}
     for _ in range(cfg["random"]):
         if rng.random() < 0.15:
             yield gfa.random_loop_case(rng, vcs=["int", "str", "reservedfa"])
@@ -108,7 +141,12 @@ def plan(tier, rng, sl, nslices, stats):
 
 
 def run_case(c, stats):
-    fa = gfa.build(c)
+    if c.get("from_regex"):
+        # the automaton the library itself builds for a medium expression (twenty to thirty states, many epsilon moves)
+        from pyformlang.regular_expression import Regex
+        fa = Regex(c["from_regex"]).to_epsilon_nfa()
+    else:
+        fa = gfa.build(c)
     stats.cls("kind:" + c["kind"])
     stats.cls("vc:" + c["vc"])
     with core.oracle_mode():
